@@ -52,7 +52,16 @@ CASES = {
 }
 
 
+def _load_reproducer(name):
+    import json, os
+
+    with open(os.path.join(os.path.dirname(os.path.dirname(os.path.abspath(__file__))), "notes", "reproducers", name)) as f:
+        return json.load(f)["case"]
+
+
 def run_probe(ctx, klass):
+    if klass == "vmap_zero_length_backward" and klass not in CASES:
+        CASES[klass] = (_load_reproducer("C06-vmap-zero-length-backward.json"), {"bwd_weight"})
     case, checks = CASES[klass]
     fails, what = False, ""
     try:
